@@ -59,3 +59,11 @@ Theorem engine_merged_rows_have_every_join_key : forall child parent conds m, me
     forall cd, In cd conds -> exists a, rget (fst cd) c = Some a /\ rget (snd cd) p = Some a.
 Proof. exact merged_rows_have_all_keys. Qed.
 Print Assumptions engine_merged_rows_have_every_join_key.
+
+(* FOR EVERY DOCUMENT (whatever its predicate-object maps hold: referencing object maps, quoted maps, functions): a row with a NULL or a token of
+   na_values in a column that the subject map references gives no statement at all through that triples map *)
+Theorem null_in_a_subject_reference_gives_no_statement : forall scfg fe doc tables t r n,
+  is_plain (m_kind (t_subj t)) = true -> In n (names (segs_of (m_kind (t_subj t)) (m_value (t_subj t)))) -> sval scfg r n = None ->
+  tm_row_lines scfg fe doc tables t r = [].
+Proof. exact null_in_subject_reference_gives_nothing. Qed.
+Print Assumptions null_in_a_subject_reference_gives_no_statement.
